@@ -198,6 +198,17 @@ Proof.
   eapply Permutation_NoDup; [apply Permutation_map; exact P | exact ND].
 Qed.
 
+(* Frame property: every theorem below has the shape
+     Lg (O ++ X) h  -> ... ->  Lg (O' ++ X) h'
+   for an ARBITRARY X (the blocks the program does not own); so blocks that were
+   live before and are not owned by the program are still live, with the same
+   layer and size, afterwards: *)
+Lemma frame_preserved : forall O X h, Lg (O ++ X) h -> forall e, In e X -> In e (live h).
+Proof.
+  intros O X h [_ P] e He. eapply Permutation_in; [apply Permutation_sym; exact P|].
+  apply in_or_app. right. exact He.
+Qed.
+
 (* ---------- outcome predicate (pointwise Hoare logic) ---------- *)
 
 Definition sat {St A} (r : res St A)
@@ -260,6 +271,20 @@ Lemma bind_put {St B} (s' : St) (f : unit -> M St B) s h :
 Proof. reflexivity. Qed.
 Lemma bind_modify {St B} (g : St -> St) (f : unit -> M St B) s h :
   bind (modify g) f s h = f tt (g s) h.
+Proof. reflexivity. Qed.
+
+(* monad laws (pointwise) *)
+Lemma bind_ret_r {St A} (m : M St A) s h : bind m ret s h = m s h.
+Proof. unfold bind, ret. destruct (m s h); reflexivity. Qed.
+
+Lemma bind_assoc {St A B C} (m : M St A) (f : A -> M St B) (g : B -> M St C) s h :
+  bind (bind m f) g s h = bind m (fun a => bind (f a) g) s h.
+Proof. unfold bind. destruct (m s h); reflexivity. Qed.
+
+Lemma try_catch_ret {St A} (a : A) (hd : M St A) s h : try_catch (ret a) hd s h = Ret a s h.
+Proof. reflexivity. Qed.
+
+Lemma try_catch_throw {St A} (hd : M St A) s h : try_catch throw hd s h = hd s h.
 Proof. reflexivity. Qed.
 
 (* ---------- list lemmas ---------- *)
